@@ -5,7 +5,7 @@ from .. import kernel, pipetrace, repotests
 from ..common import Machinery, log, read_ndjson
 from ..inputs import REF, fasta, gff, mutate, sam
 
-CMDS = ["toma", "samvar", "variants", "variantsref", "snps", "udlist"]
+CMDS = ["toma", "tomapad", "samvar", "variants", "variantsref", "snps", "udlist"]
 
 
 def tie_msa():
@@ -15,6 +15,15 @@ def tie_msa():
     for i in range(6):
         s = REF[:6] + ["A-", "AC", "--"][i % 3] + mutate(REF, i)[6:]
         recs.append(("q%d" % i, s))
+    return fasta(recs)
+
+
+def syn_msa():
+    """One amino-acid change reached through different SNPs (codon 2 GCT -> TCT and -> AGT, both A2S), alternating: with
+    --append-snps these are different records, whichever worker delivers first."""
+    recs = [("ref", REF)]
+    for i in range(6):
+        recs.append(("q%d" % i, REF[:6] + ("TCT" if i % 2 == 0 else "AGT") + REF[9:]))
     return fasta(recs)
 
 
@@ -29,7 +38,7 @@ def cli_vectors(ctx, gate_topa):
     reps = 4 if quick else 12
     files = {"in.sam": {"kind": "pipe-sam", "N": 24}, "ref.fa": {"kind": "pipe-ref"}, "m.fa": {"kind": "pipe-msa", "N": 24},
              "m.fasta": {"kind": "pipe-msa", "N": 24}, "ref.fasta": {"kind": "pipe-ref"}, "a.gb": {"kind": "pipe-gb"},
-             "tie.fa": {"text": tie_msa()}, "same.gff": {"text": samestart_gff()},
+             "tie.fa": {"text": tie_msa()}, "same.gff": {"text": samestart_gff()}, "syn.fa": {"text": syn_msa()},
              "one.fa": {"text": fasta([("ref", REF), ("q0", mutate(REF, 0, 7)), ("q1", mutate(REF, 1, 8))])},
              "pq.fasta": {"text": fasta([("q0", mutate(mutate(REF, 0, 5), 0, 9))])},
              # 20 'up' targets at distance 1 and 20 at distance 2, interleaved: ties on (distance, ambiguity) in one direction
@@ -121,6 +130,17 @@ def cli_vectors(ctx, gate_topa):
         r=max(reps, 12), sig="toprank-push-ties")
     agg = ["variants", "--msa", "@tie.fa", "--reference", "ref", "-a", "@a.gb", "--aggregate"]
     add("variants-aggregate-ties", agg + ["-t", "4"], base=agg + ["-t", "1"], r=max(reps, 10), sig="variants-aggregate-ties")
+    aggapp = ["variants", "--msa", "@syn.fa", "--reference", "ref", "-a", "@a.gb", "--aggregate", "--append-snps"]
+    add("variants-aggregate-append", aggapp + ["-t", "4"], base=aggapp + ["-t", "1"], r=max(reps, 6), sig="variants-aggregate-append")
+    for order in ("2,1,3,4,5,6", "6,5,4,3,2,1", "3,4,1,2,6,5"):
+        add("variants-aggregate-append/gate-" + order.replace(",", ""), aggapp + ["-t", "3"], base=aggapp + ["-t", "1"], r=1,
+            env={"VHOOK_GATE": "variants.getVariants:" + order, "VHOOK_GATE_MS": "2000"}, sig="variants-aggregate-append")
+    # a piped alignment small enough for the reader to have buffered all of it - and finished - before Main asks for the first
+    # record: Main is held back at that point (hook + gate that gives up after 300 ms), so both of its channels are ready
+    piped = ["variants", "--reference", "ref", "-a", "@a.gb", "-t", "2"]
+    add("variants-stdin-reader-finished-first", piped, base=piped + ["--msa", "@one.fa"], r=max(reps, 12), sig="variants-stdin-small",
+        env={"VHOOK_GATE": "variants.Variants.first:99,0", "VHOOK_GATE_MS": "300"})
+    vecs[-1]["stdin"] = "@one.fa"
     add("snps-aggregate", ["snps", "-r", "@ref.fa", "-q", "@m.fa", "--aggregate"], r=reps)
     per = ["variants", "--msa", "@one.fa", "--reference", "ref", "-a", "@same.gff"]
     add("variants-gff-same-start", per + ["-t", "2"], base=per + ["-t", "1"], r=max(reps, 10), sig="variants-gff-same-start")
